@@ -11,6 +11,7 @@ import importlib
 import itertools
 import json
 import os
+import shutil
 import pkgutil
 import random
 import sys
@@ -227,6 +228,8 @@ def main(argv=None):
     seed = int(os.environ.get("VERIF_SEED", "0") or 0)
     pid = args.pid
     t_start = time.time()
+    # replay files of an earlier run of this property are stale by definition
+    shutil.rmtree(os.path.join(HERE, "replays", pid), ignore_errors=True)
     load_contracts()
     cdefs = C.PROPS.get(pid, [])
     if args.only:
